@@ -35,6 +35,8 @@ type Case struct {
 	Introspection bool           `json:"introspection,omitempty"`
 	MaxPayloads   int            `json:"maxPayloads,omitempty"` // >0: call the response function only this many times (1 = single-response transports)
 	LeakCheck     bool           `json:"leakCheck,omitempty"` // after the case: cancel, wait, and report surviving goroutines
+	Exts          []ExtSpec      `json:"exts,omitempty"`       // C16: handler extensions to register, in this order (c16ext.go)
+	Extensions    map[string]any `json:"extensions,omitempty"` // the request's `extensions` (RawParams.Extensions)
 }
 
 type ErrOut struct {
@@ -149,6 +151,9 @@ func RunCase(es graphql.ExecutableSchema, c Case) Result {
 	if c.Introspection {
 		ex.Use(introspectionOn{})
 	}
+	if err := useExts(ex, c.Exts); err != nil {
+		return Result{ID: c.ID, Query: c.Query, Payloads: []Payload{}, Crash: "bad exts: " + err.Error()}
+	}
 	base, cancel := context.WithCancel(context.Background())
 	defer cancel()
 	st.Cancel = cancel
@@ -162,7 +167,7 @@ func RunCase(es graphql.ExecutableSchema, c Case) Result {
 				res.Crash = fmt.Sprint(r)
 			}
 		}()
-		rc, errs := ex.CreateOperationContext(ctx, &graphql.RawParams{Query: c.Query, OperationName: c.OperationName, Variables: c.Variables})
+		rc, errs := ex.CreateOperationContext(ctx, &graphql.RawParams{Query: c.Query, OperationName: c.OperationName, Variables: c.Variables, Extensions: c.Extensions})
 		if errs != nil {
 			res.GateErr = errsOut(errs)
 			if rc != nil && rc.Doc != nil {
@@ -401,7 +406,7 @@ func Main(newES func(bind func(stub any, directives any, complexity any)) graphq
 		}
 		enc.Encode(sj)
 	case "c02schema":
-		enc.Encode(C02Schema(es.Schema(), u.StubType))
+		enc.Encode(C02Schema(es.Schema(), u.StubType, u.Types))
 	case "gen":
 		g := NewGen(es.Schema(), *seed, *profile)
 		for i := 0; i < *n; i++ {
